@@ -50,6 +50,12 @@ def cases(tier, seed):
     for n in (2, 3, 4):
         for cuts in itertools.product([0, 1], repeat=n - 1):
             out.append({"id": f"segment-n{n}-cuts{''.join(map(str, cuts))}-trail2", "kind": "segment", "n": n, "cuts": list(cuts), "trail": [2]})
+    # segments AND a dense choice axis that is preceded by a dense NON-choice axis (lcm's layout
+    # [restricted, unrestricted discrete states, unrestricted discrete choices, continuous states])
+    for n in (1, 2, 3):
+        for cuts in itertools.product([0, 1], repeat=n - 1):
+            out.append({"id": f"segment-n{n}-cuts{''.join(map(str, cuts))}-trail3x2-axis2", "kind": "segment", "n": n, "cuts": list(cuts), "trail": [3, 2], "axes": [2]})
+            out.append({"id": f"segment-n{n}-cuts{''.join(map(str, cuts))}-trail2x3x2-axes1,3", "kind": "segment", "n": n, "cuts": list(cuts), "trail": [2, 3, 2], "axes": [1, 3]})
     for k, m in ((1, 2), (2, 2), (2, 3), (3, 2), (1, 5), (5, 1)):
         out.append({"id": f"equiv-{k}x{m}", "kind": "equiv", "k": k, "m": m})
     return out
@@ -154,7 +160,9 @@ def _run_segment(case):
     dig.append(got0)
     for scale in SCALES:
         for use_axis in ([False, True] if trail else [False]):
-            axes = (1,) if use_axis else None
+            if case.get("axes") and not use_axis:
+                continue
+            axes = (tuple(case["axes"]) if case.get("axes") else (1,)) if use_axis else None
             f = jax.jit(jax.vmap(lambda v: emax(v, choice_axes=axes, choice_segments=seginfo, params={"additive_utility_shock": {"scale": scale}})))
             got = np.asarray(f(jnp.asarray(A)))
             dig.append(got)
@@ -162,8 +170,9 @@ def _run_segment(case):
                 rows = np.where(ids == s)[0]
                 sub = A[:, rows]
                 if use_axis:
-                    ref, mx = _ref_lse(sub, scale, (1, 2))
-                    nch = len(rows) * trail[0]
+                    red = (1,) + tuple(a + 1 for a in axes)  # rows of the segment + the dense choice axes
+                    ref, mx = _ref_lse(sub, scale, red)
+                    nch = len(rows) * int(np.prod([trail[a - 1] for a in axes]))
                 else:
                     ref, mx = _ref_lse(sub, scale, (1,))
                     nch = len(rows)
